@@ -43,7 +43,7 @@ def encode(y_id, enc):
 
 
 def gen_cases(tier, seed):
-    reps = {"quick": 12, "thorough": 60}[tier]
+    reps = {"quick": 12, "thorough": 200}[tier]
     cases = []
     encs = list(ENCODINGS)
     for name, e in POOL.items():
